@@ -1,0 +1,46 @@
+//! Verification hooks (compiled only with `--cfg gc_arena_verif`): plain-data, read-only views of
+//! the collector state for an external correspondence check. Nothing in the crate reads these.
+
+use alloc::vec::Vec;
+
+/// Upper bound on the number of objects visited when walking the `all` list.
+pub const MAX_WALK: usize = 1 << 22;
+
+#[derive(Debug, Clone, Copy, PartialEq, Eq)]
+pub struct ObjSnapshot {
+    /// Address of the value (what `Gc::as_ptr` returns, as an integer).
+    pub addr: usize,
+    /// `b'W'` white, `b'w'` white-weak, `b'G'` gray, `b'B'` black.
+    pub color: u8,
+    pub needs_trace: bool,
+    pub live: bool,
+}
+
+#[derive(Debug, Clone, PartialEq, Eq)]
+pub struct Snapshot {
+    /// `b'M'` mark, `b'S'` sweep, `b'Z'` sleep, `b'D'` drop.
+    pub phase: u8,
+    pub root_needs_trace: bool,
+    /// The `all` list, head first.
+    pub all: Vec<ObjSnapshot>,
+    /// The walk was cut off at `MAX_WALK` objects.
+    pub truncated: bool,
+    pub sweep: Option<usize>,
+    pub sweep_prev: Option<usize>,
+    /// The gray queue, bottom of the stack first.
+    pub gray: Vec<usize>,
+    pub gray_again: Vec<usize>,
+}
+
+#[derive(Debug, Clone, Copy, PartialEq)]
+pub struct Counters {
+    pub total_gcs: usize,
+    pub wakeup_amount: f64,
+    pub artificial_debt: f64,
+    pub allocated_gcs: usize,
+    pub dropped_gcs: usize,
+    pub freed_gcs: usize,
+    pub marked_gcs: usize,
+    pub traced_gcs: usize,
+    pub remembered_gcs: usize,
+}
